@@ -42,8 +42,9 @@ func getTypeInfo(t reflect.Type) *theTypeInfo {
 		// Add fields
 		typeInfo.Fields = appendFields(nil, nil, t)
 
-		// Sort fields
-		sort.Sort(sortableFieldInfos(typeInfo.Fields))
+		// Sort fields, then resolve the names that several (embedded) fields share
+		sort.Stable(sortableFieldInfos(typeInfo.Fields))
+		typeInfo.Fields = dominantFields(typeInfo.Fields)
 	}
 
 	// Publish
